@@ -112,6 +112,32 @@ func genParseExpr(r *rand.Rand, n int, emit func(args ...string)) {
 			emit(exprCase("a "+o1+" "+atomFor(o1, "b")+" "+o2+" "+atomFor(o2, "c"), none)...)
 		}
 	}
+	// every chain of five operators over one representative per level: all ascending / descending /
+	// mixed precedence profiles (the descent loop walks its longest path on strictly ascending ones)
+	{
+		reps := []string{"*", "+", "<", "AND", "OR"}
+		names := []string{"a", "b", "c", "d", "e", "f", "g"}
+		depth := 5
+		if n >= 100000 {
+			depth = 6
+		}
+		var rec func(ops []string)
+		rec = func(ops []string) {
+			if len(ops) == depth {
+				var b strings.Builder
+				b.WriteString(names[0])
+				for i, o := range ops {
+					b.WriteString(" " + o + " " + names[i+1])
+				}
+				emit(exprCase(b.String(), none)...)
+				return
+			}
+			for _, o := range reps {
+				rec(append(append([]string(nil), ops...), o))
+			}
+		}
+		rec(nil)
+	}
 	if n >= 100000 { // thorough: k = 3 exhaustive, and all parenthesisations for k <= 4 over level representatives
 		for _, o1 := range binOps {
 			for _, o2 := range binOps {
@@ -137,7 +163,28 @@ func genParseExpr(r *rand.Rand, n int, emit func(args ...string)) {
 	}
 	for i := 0; i < n; i++ {
 		var text string
-		switch r.Intn(10) {
+		switch r.Intn(11) {
+		case 10: // monotone precedence profiles with random spellings per level, possibly inside parentheses
+			levels := [][]string{{"OR"}, {"AND"}, {"=", "!=", "<>", "<", "<=", ">", ">="}, {"+", "-", "|", "^"}, {"*", "/", "%", "&"}}
+			var b strings.Builder
+			b.WriteString(randBareIdent(r))
+			asc := r.Intn(2) == 0
+			for rep := 0; rep < 1+r.Intn(3); rep++ {
+				for li := 0; li < 5; li++ {
+					l := li
+					if !asc {
+						l = 4 - li
+					}
+					if r.Intn(6) == 0 {
+						continue
+					}
+					b.WriteString(" " + pick(r, levels[l]) + " " + randBareIdent(r))
+				}
+			}
+			text = b.String()
+			if r.Intn(3) == 0 {
+				text = randBareIdent(r) + " * (" + text + ")"
+			}
 		case 0:
 			text = randLexText(r, false)
 		case 1:
